@@ -31,7 +31,7 @@ func c09Gen(rng *rand.Rand, conf string, idx int) any {
 	if conf == "shipped" {
 		w.LimitKB = 0
 	}
-	w.Dist = pick(rng, []string{"small", "small", "uniform", "near-limit", "one-over", "big-pods"})
+	w.Dist = pick(rng, []string{"small", "small", "uniform", "near-limit", "one-over", "big-pods", "tail-heavy", "tail-heavy"})
 	count := func() int {
 		switch rng.Intn(6) {
 		case 0:
@@ -93,6 +93,12 @@ func c09State(w *C09W) ([]*api.PodSandbox, []*api.Container, int) {
 				return lim + 100 + rng.Intn(lim/4)
 			}
 			return rng.Intn(lim / 40)
+		case "tail-heavy":
+			// small objects first, a few large ones at the very end of the runtime's order
+			if !pod && i >= w.NCtrs-2-w.Seed%8 {
+				return lim/6 + rng.Intn(lim/4)
+			}
+			return rng.Intn(lim / 200)
 		case "big-pods":
 			if pod {
 				return lim/5 + rng.Intn(lim/5)
